@@ -200,8 +200,8 @@ func evalOps(params rlwe.Parameters, gcts map[string]*rlwe.GadgetCiphertext) []e
 
 var gctCache = map[string]map[string]*rlwe.GadgetCiphertext{}
 
-func evaluatorSequenceScenario(ch chain, nQ, nP int) engine.Scenario {
-	name := fmt.Sprintf("evaluator/sequences/%s/nQ=%d/nP=%d", ch.name, nQ, nP)
+func evaluatorSequenceScenario(ch chain, nQ, nP, recv int) engine.Scenario {
+	name := fmt.Sprintf("evaluator/sequences/%s/nQ=%d/nP=%d/%s", ch.name, nQ, nP, []string{"NewEvaluator", "ShallowCopy"}[recv])
 	Q, P := ch.Q[:nQ], ch.P[:nP]
 	return engine.Scenario{Name: name, Bound: -1, Fn: func(c *engine.Chooser) {
 		params, err := rlweParams(Q, P)
@@ -237,7 +237,6 @@ func evaluatorSequenceScenario(ch chain, nQ, nP int) engine.Scenario {
 				ops[j], ops[j-1] = ops[j-1], ops[j]
 			}
 		}
-		recv := c.Choose(2, "receiver")
 		i1 := c.Choose(len(ops), "first-op")
 		i2 := c.Choose(len(ops), "second-op")
 		in1 := hashInput(params.RingQ(), params.MaxLevelQ(), 1)
